@@ -126,6 +126,36 @@ static std::vector<int> c08_positions() {
   if (THOROUGH) { std::vector<int> v; for (int i = 0; i <= 80; i++) v.push_back(i); return v; }
   return {0, 1, 10, 47, 48, 49, 63, 64, 65, 80};
 }
+// every key byte position x border values {0x00, 0x7f, 0x80, 0xff} on two base keys (one with all other bytes < 0x80, one mixed): a key-block
+// preparation that treats key bytes as signed, works on wider lanes, or stops at a particular value shows as a wrong tag
+static std::string c08_keypos(const Case &c) {
+  int hm = (int)c.num("hm"), pos = (int)c.num("pos");
+  long evals = 0;
+  static const unsigned char BV[4] = {0x00, 0x7f, 0x80, 0xff};
+  for (int base = 0; base < 2; base++)
+    for (int v = 0; v < 4; v++)
+      for (size_t n : {(size_t)0, (size_t)37, R + 5}) {
+        unsigned char key[16], k2[16];
+        for (int i = 0; i < 16; i++) key[i] = base ? (unsigned char)(0x90 + 7 * i) : (unsigned char)(0x21 + 5 * i);
+        key[pos] = BV[v];
+        memcpy(k2, key, 16);
+        Bytes file = msg_content(2, n + 48, 0);
+        int fd = memfd_with(file);
+        FILE *fp = fopen_fd(fd, "rb");
+        fseek(fp, 48, SEEK_SET);
+        hmac hh;
+        Bytes out(40, 0xAA);
+        hh.gethmac((u8_t)hm, k2, fp, out.data());
+        fclose(fp);
+        close(fd);
+        evals++;
+        Bytes exp = ref::hmac(hm, key, 16, file.data() + 48, n);
+        if (memcmp(out.data(), exp.data(), exp.size()) != 0)
+          return "#" + std::to_string(evals) + "#" + std::string("tag-differs-for-key:") + AN[hm] + "|HMAC-" + AN[hm] + " under key " + hex(key, 16) + " (byte " + std::to_string(pos) + " = 0x" + hex(&BV[v], 1) + ") over a " + std::to_string(n) + "-byte message differs from RFC 2104";
+        if (memcmp(k2, key, 16) != 0) return "#" + std::to_string(evals) + "#key-buffer-modified|gethmac changed the caller's key";
+      }
+  return "#" + std::to_string(evals) + "#";
+}
 static std::string c08_hmac(const Case &c) {
   int hm = (int)c.num("hm"), k = (int)c.num("k");
   size_t n = (size_t)c.num("len");
@@ -329,6 +359,103 @@ static std::string c09_bits(const Case &c) { // all 128 x 128 single-bit key/blo
     d.runaes_128bit(w);
     if (memcmp(w, b.data(), 16) != 0) return "#" + std::to_string(evals) + "#decrypt-not-inverse|single-bit pair: key " + hex(key) + " block " + hex(b);
   }
+  return "#" + std::to_string(evals) + "#";
+}
+
+// ---- round-state enumeration: data-dependent paths inside MixColumns / InvMixColumns --------------------------------------------
+// An own AES-128 written from the FIPS-197 definitions (no table shared with wencry or libcrypto) is used only to CONSTRUCT inputs:
+// for round r = 1..9, column c and a 4-byte pattern, the (key, block) pair is computed whose state entering MixColumns of round r
+// (family S), leaving it (family M = the input of InvMixColumns in the straightforward inverse cipher) or leaving it xor the round
+// key (family X = the input of InvMixColumns in the equivalent inverse cipher) has that pattern in column c. The oracle stays
+// libcrypto; the construction is self-checked (own forward cipher must agree with libcrypto and reach the target state).
+namespace own {
+static unsigned char SB[256], ISB[256];
+static bool inited = false;
+static void init() {
+  if (inited) return;
+  for (int x = 0; x < 256; x++) {
+    unsigned char inv = 0;
+    for (int y = 1; y < 256 && x; y++) if (gmul((unsigned char)x, (unsigned char)y) == 1) { inv = (unsigned char)y; break; }
+    unsigned char s = inv, r = inv;
+    for (int i = 0; i < 4; i++) { r = (unsigned char)((r << 1) | (r >> 7)); s ^= r; }
+    s ^= 0x63;
+    SB[x] = s; ISB[s] = (unsigned char)x;
+  }
+  inited = true;
+}
+typedef unsigned char St[16]; // FIPS-197 order: byte i = row i%4, column i/4
+static void expand(const unsigned char *key, unsigned char rk[11][16]) {
+  memcpy(rk[0], key, 16);
+  unsigned char rc = 1;
+  for (int r = 1; r <= 10; r++) {
+    unsigned char t[4] = {SB[rk[r - 1][13]], SB[rk[r - 1][14]], SB[rk[r - 1][15]], SB[rk[r - 1][12]]};
+    t[0] ^= rc; rc = xt(rc);
+    for (int i = 0; i < 4; i++) rk[r][i] = rk[r - 1][i] ^ t[i];
+    for (int i = 4; i < 16; i++) rk[r][i] = rk[r - 1][i] ^ rk[r][i - 4];
+  }
+}
+static void sub(St s, const unsigned char *box) { for (int i = 0; i < 16; i++) s[i] = box[s[i]]; }
+static void shift(St s, bool inv) { St t; for (int c = 0; c < 4; c++) for (int r = 0; r < 4; r++) { int from = inv ? ((c - r + 4) % 4) : ((c + r) % 4); t[4 * c + r] = s[4 * from + r]; } memcpy(s, t, 16); }
+static void mix(St s, bool inv) {
+  static const unsigned char F[4] = {2, 3, 1, 1}, I[4] = {14, 11, 13, 9};
+  const unsigned char *m = inv ? I : F;
+  for (int c = 0; c < 4; c++) {
+    unsigned char a[4], o[4];
+    memcpy(a, s + 4 * c, 4);
+    for (int r = 0; r < 4; r++) { o[r] = 0; for (int k = 0; k < 4; k++) o[r] ^= gmul(m[(k - r + 4) % 4], a[k]); }
+    memcpy(s + 4 * c, o, 4);
+  }
+}
+static void ark(St s, const unsigned char *k) { for (int i = 0; i < 16; i++) s[i] ^= k[i]; }
+// plaintext whose state entering MixColumns of round r equals S
+static void back_from_S(const unsigned char rk[11][16], int r, const St S, St pt) {
+  memcpy(pt, S, 16);
+  shift(pt, true); sub(pt, ISB);
+  for (int q = r - 1; q >= 1; q--) { ark(pt, rk[q]); mix(pt, true); shift(pt, true); sub(pt, ISB); }
+  ark(pt, rk[0]);
+}
+static void forward(const unsigned char rk[11][16], const St pt, St ct, int r, St atS) {
+  memcpy(ct, pt, 16); ark(ct, rk[0]);
+  for (int q = 1; q <= 9; q++) { sub(ct, SB); shift(ct, false); if (q == r) memcpy(atS, ct, 16); mix(ct, false); ark(ct, rk[q]); }
+  sub(ct, SB); shift(ct, false); ark(ct, rk[10]);
+}
+} // namespace own
+static const unsigned char C09_COLVALS[5] = {0x00, 0x01, 0x80, 0xff, 0x53};
+static std::string c09_rstate(const Case &c) {
+  own::init();
+  int base = (int)c.num("base"), r = (int)c.num("r"), col = (int)c.num("col"), fam = (int)c.num("fam");
+  Bytes key = unhex(C09_BASES[base][0]), fill = unhex(C09_BASES[base][1]);
+  unsigned char rk[11][16];
+  own::expand(key.data(), rk);
+  encryaes e(key.data());
+  decryaes d(key.data());
+  long evals = 0;
+  const char *FN[3] = {"entering MixColumns", "entering InvMixColumns (inverse cipher)", "entering InvMixColumns (equivalent inverse cipher)"};
+  for (int ctx = 0; ctx < 3; ctx++)          // the other three columns: filler bytes / all zero / the same pattern
+    for (int p = 0; p < 625 + 256; p++) {
+      unsigned char pat[4];
+      if (p < 625) { int q = p; for (int i = 0; i < 4; i++) { pat[i] = C09_COLVALS[q % 5]; q /= 5; } }
+      else memset(pat, p - 625, 4);
+      own::St T, S, pt, ct, atS;
+      for (int i = 0; i < 16; i++) T[i] = ctx == 0 ? fill[i] : ctx == 1 ? 0 : pat[i % 4];
+      memcpy(T + 4 * col, pat, 4);
+      memcpy(S, T, 16);
+      if (fam == 2) own::ark(S, rk[r]);        // X = M xor k_r  =>  M = X xor k_r
+      if (fam >= 1) own::mix(S, true);         // M = MixColumns(S)  =>  S = InvMixColumns(M)
+      own::back_from_S(rk, r, S, pt);
+      own::forward(rk, pt, ct, r, atS);
+      unsigned char lc[16];
+      ref::aes_block(true, key.data(), pt, lc);
+      if (memcmp(atS, S, 16) != 0 || memcmp(lc, ct, 16) != 0) return "internal|round-state construction does not reproduce itself (harness defect, not a verdict)";
+      alignas(16) unsigned char w[16];
+      memcpy(w, pt, 16);
+      e.runaes_128bit(w);
+      evals++;
+      std::string where = " (round " + std::to_string(r) + ", column " + std::to_string(col) + " = " + hex(pat, 4) + " " + FN[fam] + ")";
+      if (memcmp(w, lc, 16) != 0) return "#" + std::to_string(evals) + "#encrypt-differs|AES-128(" + hex(key) + ", " + hex(pt, 16) + ") gives " + hex(w, 16) + ", FIPS-197 says " + hex(lc, 16) + where;
+      d.runaes_128bit(w);
+      if (memcmp(w, pt, 16) != 0) return "#" + std::to_string(evals) + "#decrypt-not-inverse|decrypt(encrypt(x)) != x for key " + hex(key) + " block " + hex(pt, 16) + where;
+    }
   return "#" + std::to_string(evals) + "#";
 }
 
@@ -641,6 +768,8 @@ static void build(const Args &a, std::vector<Case> &out) {
           if (!THOROUGH && k && (n % 3)) continue;
           add(Case().set("g", "hmac").set("hm", hm).set("k", k).set("len", (long)n), std::string("hmac:") + AN[hm] + ":len%64=" + std::to_string(n % 64) + ":refills=" + std::to_string(n / R));
         }
+    for (int hm = 0; hm < 3; hm++)
+      for (int pos = 0; pos < 16; pos++) add(Case().set("g", "keypos").set("hm", hm).set("pos", pos), std::string("keypos:") + AN[hm] + ":byte=" + std::to_string(pos));
     for (int order = 0; order < 8; order++) add(Case().set("g", "reuse").set("order", order), "reuse:order=" + std::to_string(order));
     for (int T : {1, 2, 3, 4, 5, 16})
       for (int cm : {0, 1, 2})
@@ -659,6 +788,10 @@ static void build(const Args &a, std::vector<Case> &out) {
           for (int kv = 0; kv < 256; kv += 5) add(Case().set("g", "dev").set("base", b).set("kp", kp).set("kv", kv).set("bstep", 5), "dev:base=" + std::to_string(b) + ":keybyte=" + std::to_string(kp));
     for (int b = 0; b < (THOROUGH ? 8 : 4); b++)
       for (int kb = 0; kb < 128; kb++) add(Case().set("g", "bits").set("base", b).set("kb", kb), "bits:base=" + std::to_string(b));
+    for (int b = 0; b < (THOROUGH ? 8 : 2); b++)
+      for (int r = 1; r <= 9; r++)
+        for (int col = 0; col < 4; col++)
+          for (int fam = 0; fam < 3; fam++) add(Case().set("g", "rstate").set("base", b).set("r", r).set("col", col).set("fam", fam), "rstate:round=" + std::to_string(r) + ":col=" + std::to_string(col) + ":fam=" + std::to_string(fam));
   } else if (MODE == "c10") {
     for (int cm = 0; cm < 5; cm++)
       for (int k = 0; k < 3; k++)
@@ -686,9 +819,11 @@ static std::string run_case(const Case &c) {
   if (g == "hmac") return c08_hmac(c);
   if (g == "filetag") return c08_filetag(c);
   if (g == "reuse") return c08_reuse(c);
+  if (g == "keypos") return c08_keypos(c);
   if (g == "tables") return c09_tables(c);
   if (g == "dev") return c09_dev(c);
   if (g == "bits") return c09_bits(c);
+  if (g == "rstate") return c09_rstate(c);
   if (g == "seq") return c10_seq(c);
   if (g == "long") return c10_long(c);
   if (g == "enc3") return c16_enc3(c);
